@@ -1,7 +1,8 @@
 /-
-Lemmas/AddrOther.lean — `calculate_address_offset` (`addrOffset`) cut into its two halves: the "other"
-operand of a label expression (`addrOther`: a second label's ADDRESS, a number, anything else is an
-"unresolved expression" diagnostic) and the arithmetic on the two integers (`addrCombine`).
+Lemmas/AddrOther.lean — `calculate_address_offset` (`addrOffset`) cut into its two halves: the value of ONE
+operand of a label expression (`addrOperand`, model: a label's ADDRESS, a signed number, anything else is an
+"unresolved expression" diagnostic) and the arithmetic on the two integers IN THE WRITTEN ORDER (`addrCombine`;
+repair batch B3: left `op` right, a result below zero is reduced modulo 65536 for every operator).
 Shared by the Front*, Layout*, NoInt* and Encode* lemma families.
 -/
 import CoCoVerif.Model.Program
@@ -9,80 +10,83 @@ import CoCoVerif.Model.Program
 namespace CoCo.Asm
 open CoCo
 
-/-- the constant the "other" operand of a label expression contributes (signed since repair batch B2:
-a number written or defined with a minus sign counts negatively) -/
-def addrOther (ss : List Stmt) (other : Value) : Outcome Int :=
-  if other.isAddress then
-    (match other.int? with
-     | some j => (match addrIntOf ss j with | some x => .ok (x : Int) | none => .internal)
-     | none => .internal)
-  else if other.isNumeric then (match other.int? with
-                                | some n => .ok (if other.isNegative then -(n : Int) else n) | none => .internal)
-  else .diag
-
-/-- the arithmetic of `calculate_address_offset` on the label's address `a` and the constant `add` -/
-def addrCombine (op : Char) (a : Nat) (add : Int) : Outcome Value :=
+/-- the arithmetic of `calculate_address_offset` on the two operand values `a` (left) and `b` (right) -/
+def addrCombine (op : Char) (a b : Int) : Outcome Value :=
   let z : Option Int :=
-    if op == '+' then some ((a : Int) + add) else if op == '-' then some (((a : Int) - add) % 65536)
-    else if op == '*' then some ((a : Int) * add) else (if add = 0 then none else some (Int.tdiv (a : Int) add))
+    if op == '+' then some (a + b) else if op == '-' then some (a - b)
+    else if op == '*' then some (a * b) else (if b = 0 then none else some (Int.tdiv a b))
   match z with
   | none => .diag
-  | some z => (match numericOfInt z (some 4) .extended with | .ok nv => .ok nv | .error _ => .diag)
+  | some z => (match numericOfInt (if z < 0 then z % 65536 else z) (some 4) .extended with | .ok nv => .ok nv | .error _ => .diag)
 
+/-- `addrOffset` in closed form: both operands through `addrOperand` (left first), then `addrCombine` -/
 theorem addrOffset_expr (ss : List Stmt) (l r : Value) (op : Char) (m : Mode) (ae : Bool) :
     addrOffset ss (.expr l r op m ae) =
-      (match (if l.isAddress then l.int? else r.int?), addrOther ss (if l.isAddress then r else l) with
-       | _, .diag => .diag
-       | some ai, .ok add =>
-         (match addrIntOf ss ai with
-          | none => .internal
-          | some a => addrCombine op a add)
-       | _, _ => .internal) := rfl
+      (match addrOperand ss l with
+       | .ok a =>
+         (match addrOperand ss r with
+          | .ok b => addrCombine op a b
+          | .diag => .diag
+          | .internal => .internal
+          | .diverged => .diverged)
+       | .diag => .diag
+       | .internal => .internal
+       | .diverged => .diverged) := by
+  simp only [addrOffset, addrCombine]
+  cases addrOperand ss l <;> try rfl
+  cases addrOperand ss r <;> rfl
 
 theorem addrOffset_nonexpr (ss : List Stmt) (v : Value) (h : ∀ l r op m ae, v ≠ .expr l r op m ae) :
     addrOffset ss v = .internal := by
   cases v <;> first | rfl | exact absurd rfl (h _ _ _ _ _)
 
-theorem addrCombine_cases (op : Char) (a : Nat) (add : Int) :
-    addrCombine op a add = .diag ∨ ∃ v, addrCombine op a add = .ok v := by
+theorem addrCombine_cases (op : Char) (a b : Int) :
+    addrCombine op a b = .diag ∨ ∃ v, addrCombine op a b = .ok v := by
   unfold addrCombine
   generalize (if (op == '+') = true then _ else _ : Option Int) = z
   cases z with
   | none => left; rfl
-  | some z => dsimp only; cases numericOfInt z (some 4) .extended <;> simp
+  | some z => dsimp only; cases numericOfInt (if z < 0 then z % 65536 else z) (some 4) .extended <;> simp
 
-theorem addrCombine_ne_internal (op : Char) (a : Nat) (add : Int) : addrCombine op a add ≠ .internal := by
-  rcases addrCombine_cases op a add with h | ⟨v, h⟩ <;> rw [h] <;> simp
+theorem addrCombine_ne_internal (op : Char) (a b : Int) : addrCombine op a b ≠ .internal := by
+  rcases addrCombine_cases op a b with h | ⟨v, h⟩ <;> rw [h] <;> simp
 
-theorem addrCombine_ne_diverged (op : Char) (a : Nat) (add : Int) : addrCombine op a add ≠ .diverged := by
-  rcases addrCombine_cases op a add with h | ⟨v, h⟩ <;> rw [h] <;> simp
+theorem addrCombine_ne_diverged (op : Char) (a b : Int) : addrCombine op a b ≠ .diverged := by
+  rcases addrCombine_cases op a b with h | ⟨v, h⟩ <;> rw [h] <;> simp
 
-theorem addrOther_ne_diverged (ss : List Stmt) (v : Value) : addrOther ss v ≠ .diverged := by
-  unfold addrOther
+theorem addrOperand_ne_diverged (ss : List Stmt) (v : Value) : addrOperand ss v ≠ .diverged := by
+  unfold addrOperand
   repeat' split
   all_goals simp
 
-/-- whether the other operand is an "unresolved expression" does not depend on the statement list -/
-theorem addrOther_diag_iff (ss ss' : List Stmt) (v : Value) :
-    addrOther ss v = .diag ↔ addrOther ss' v = .diag := by
-  unfold addrOther
+/-- whether an operand is an "unresolved expression" does not depend on the statement list -/
+theorem addrOperand_diag_iff (ss ss' : List Stmt) (v : Value) :
+    addrOperand ss v = .diag ↔ addrOperand ss' v = .diag := by
+  unfold addrOperand
   repeat' split
   all_goals simp
 
-/-- the other operand in closed form -/
-theorem addrOther_address (ss : List Stmt) (j : Nat) (m : Mode) :
-    addrOther ss (.address j m) = (match addrIntOf ss j with | some x => .ok (x : Int) | none => .internal) := rfl
+/-- one operand in closed form -/
+theorem addrOperand_address (ss : List Stmt) (j : Nat) (m : Mode) :
+    addrOperand ss (.address j m) = (match addrIntOf ss j with | some x => .ok (x : Int) | none => .internal) := rfl
 
-theorem addrOther_numeric (ss : List Stmt) (k : Nat) (h : Option Nat) (m : Mode) (n : Bool) :
-    addrOther ss (.numeric k h m n) = .ok (if n then -(k : Int) else k) := rfl
+theorem addrOperand_numeric (ss : List Stmt) (k : Nat) (h : Option Nat) (m : Mode) (n : Bool) :
+    addrOperand ss (.numeric k h m n) = .ok (if n then -(k : Int) else k) := rfl
 
 /-- a number without a sign contributes itself -/
-theorem addrOther_numeric_pos (ss : List Stmt) (k : Nat) (h : Option Nat) (m : Mode) :
-    addrOther ss (.numeric k h m false) = .ok (k : Int) := rfl
+theorem addrOperand_numeric_pos (ss : List Stmt) (k : Nat) (h : Option Nat) (m : Mode) :
+    addrOperand ss (.numeric k h m false) = .ok (k : Int) := rfl
 
-theorem addrOther_other (ss : List Stmt) (v : Value) (ha : v.isAddress = false) (hn : v.isNumeric = false) :
-    addrOther ss v = .diag := by
-  simp [addrOther, ha, hn]
+theorem addrOperand_other (ss : List Stmt) (v : Value) (ha : v.isAddress = false) (hn : v.isNumeric = false) :
+    addrOperand ss v = .diag := by
+  simp [addrOperand, ha, hn]
+
+/-- success of `addrOffset` splits into the two operands and the arithmetic -/
+theorem addrOffset_ok {ss : List Stmt} {l r : Value} {op : Char} {m : Mode} {ae : Bool} {v : Value} :
+    addrOffset ss (.expr l r op m ae) = .ok v ↔
+      ∃ a b, addrOperand ss l = .ok a ∧ addrOperand ss r = .ok b ∧ addrCombine op a b = .ok v := by
+  rw [addrOffset_expr]
+  cases addrOperand ss l <;> cases addrOperand ss r <;> simp
 
 /-! ### the per-statement step of `fixAll`: `fixOne` then `fitWidth` -/
 
